@@ -66,6 +66,9 @@ func genC04(t *simrt.Tape, tier string) interface{} {
 	p.Cli.High = false
 	FixSelector(p.Conf.Listeners[0], &p.Cli)
 	maxSize := []int{40, 300, 3000}[t.Draw(3)]
+	if t.Draw(16) == 0 {
+		maxSize = 20000 // a websocket message beyond the 4 KiB read buffer, several TLS records per envelope
+	}
 	p.C2S = genSenders(t, 3, maxSize)
 	p.S2C = genSenders(t, 3, maxSize)
 	if len(p.C2S)+len(p.S2C) == 0 {
